@@ -3,8 +3,6 @@ package c18
 import (
 	"fmt"
 
-	"github.com/robertkrimen/otto"
-
 	"verif/mc/engine"
 )
 
@@ -21,26 +19,26 @@ import (
 // ---------------------------------------------------------------------------
 
 type callForm struct {
-	name      string
-	setup     string // run before the limit is configured
-	call      string // one nested invocation of r
-	perLevel  int    // frames per nesting level: script frames + native trampolines that stay on the stack
-	trampline string
+	name     string
+	setup    string // run before the limit is configured
+	call     string // one nested invocation of r
+	perLevel int    // frames per nesting level: script frames + native trampolines that stay on the stack
+	extra    string // what the second frame per level is, where there is one
 }
 
 var callForms = []callForm{
 	{name: "direct", call: `r();`, perLevel: 1},
 	{name: "method", setup: `obj = { r: r };`, call: `obj.r();`, perLevel: 1},
-	{name: "call", call: `r.call(null);`, perLevel: 2, trampline: "Function.prototype.call"},
-	{name: "apply", call: `r.apply(null, []);`, perLevel: 2, trampline: "Function.prototype.apply"},
+	{name: "call", call: `r.call(null);`, perLevel: 2, extra: "Function.prototype.call"},
+	{name: "apply", call: `r.apply(null, []);`, perLevel: 2, extra: "Function.prototype.apply"},
 	{name: "bound", setup: `rb = r.bind(null);`, call: `rb();`, perLevel: 1},
 	{name: "new", call: `new r();`, perLevel: 1},
 	{name: "getter", setup: `obj = {}; Object.defineProperty(obj, "g", { get: r });`, call: `obj.g;`, perLevel: 1},
 	{name: "valueOf", setup: `vo = { valueOf: r };`, call: `+vo;`, perLevel: 1},
-	{name: "forEach", setup: `one = [1];`, call: `one.forEach(r);`, perLevel: 2, trampline: "Array.prototype.forEach"},
-	{name: "sort", setup: `two = [2, 1];`, call: `two.sort(r);`, perLevel: 2, trampline: "Array.prototype.sort"},
+	{name: "forEach", setup: `one = [1];`, call: `one.forEach(r);`, perLevel: 2, extra: "Array.prototype.forEach"},
+	{name: "sort", setup: `two = [2, 1];`, call: `two.sort(r);`, perLevel: 2, extra: "Array.prototype.sort"},
 	{name: "eval", call: `eval("r()");`, perLevel: 1},
-	{name: "Function", call: `Function("r()")();`, perLevel: 2, trampline: "anonymous function created by Function (a script frame)"},
+	{name: "Function", call: `Function("r()")();`, perLevel: 2, extra: "anonymous function created by Function (a script frame)"},
 }
 
 func limitSetup(f callForm) string {
@@ -129,5 +127,3 @@ func checkLimit(r *engine.Run, f callForm, L, d int, caught bool, key string) {
 			Aux: map[string]string{"kind": "followup"}})
 	}
 }
-
-var _ = otto.New
